@@ -33,8 +33,8 @@ RULE = (
     "placement of every arrival at a loop-iteration boundary: default when the loop idles, deviations = at a busy boundary / only "
     "after the pending timer fired (bound 1 quick, 2 thorough; ALL placements (free) for sequences of <= 3 (thorough <= 4) datagrams); handler "
     "shapes: k in {1, 2, inf} requests per generator x work per request in {0, 1, 2 checkpoints, sleep 1.0 s for address A} x "
-    "yielded timeout in {None, 0.5} x raises ValueError on request r in {none, A1, A2} x one malformed datagram at position "
-    "{none, first, last}; APIs: AsyncUDPNetworkServer and low-level AsyncDatagramServer; distinct_nontrivial = distinct "
+    "yielded timeout in {None, 0.5} x raises ValueError (high-level API) or dies with CancelledError (both APIs) on request r in {none, A1, A2} x one malformed datagram at position "
+    "{none, first, last}; APIs: AsyncUDPNetworkServer and low-level AsyncDatagramServer; plus bursts of 2 / 40 / 300 (thorough also 1100) datagrams read by the loop BEFORE serve() is awaited (all delivered, per-address order); distinct_nontrivial = distinct "
     "(configuration class, handler log) pairs of executions with a non-default placement or with >= 2 datagrams"
 )
 ASSUMPTIONS = [
@@ -60,6 +60,7 @@ class Shape:
         self.work = cfg.get("work", 0)  # 0/1/2 checkpoints or "sleep"
         self.tau = cfg.get("tau")
         self.raise_on = cfg.get("raise_on")  # e.g. "A1"
+        self.raise_exc = cfg.get("raise_exc", "ValueError")  # "Cancelled": the generator dies with CancelledError (e.g. it awaited a future somebody cancelled)
         self.api = cfg["api"]
 
 
@@ -110,7 +111,7 @@ class Body:
                     raise
                 rec.yield_end(y, "item")
                 rec.add(addr, "req", req)
-                if shape.raise_on == req:
+                if shape.raise_on == req and shape.raise_exc != "Cancelled":
                     rec.add(addr, "raise")
                     raise ValueError("handler failure on " + str(req))
                 if shape.work == "sleep":
@@ -119,6 +120,11 @@ class Body:
                 else:
                     for _ in range(shape.work):
                         await asyncio.sleep(0)
+                if shape.raise_on == req:
+                    # the work of this request ends with a CancelledError (it awaited something that somebody cancelled): later
+                    # datagrams of this address may already be queued
+                    rec.add(addr, "raise")
+                    raise asyncio.CancelledError("future awaited by the handler was cancelled")
                 await client.send_packet("ok:" + str(req))
         finally:
             rec.gen_final(g)
@@ -320,7 +326,7 @@ def oracle(cfg: dict, obs: dict) -> tuple[str | None, str, dict]:
                 return "datagram-handled-late", (f"address {addr}: datagram #{n} arrived at t={nxt['t']:.4f}, the previous request of that address was finished at "
                                                   f"t={finish_prev:.4f}, but it reached the handler only at t={y['t_resume']:.4f}; log={obs['log']}"), notes
             seen_at[addr].append(y["t_resume"])
-            work = SLEEP if (shape.work == "sleep" and addr == "A" and nxt["value"] is not None and shape.raise_on != nxt["value"]) else 0.0
+            work = SLEEP if (shape.work == "sleep" and addr == "A" and nxt["value"] is not None and (shape.raise_on != nxt["value"] or shape.raise_exc == "Cancelled")) else 0.0
             if work:
                 a_parked.append((y["t_resume"], y["t_resume"] + work))
             finish_prev = y["t_resume"] + work
@@ -372,7 +378,12 @@ def shapes(tier: str, api: str) -> list[dict]:
                 for raise_on in ((None, "A1", "A2") if api == "hl" else (None,)):
                     if tier == "quick" and work == 2 and (tau is not None or raise_on):
                         continue
-                    out.append({"k": k, "work": work, "tau": tau, "raise_on": raise_on})
+                    out.append({"k": k, "work": work, "tau": tau, "raise_on": raise_on, "raise_exc": "ValueError"})
+                # the generator dies with CancelledError while handling a request (both APIs; quick: one request position)
+                for raise_on in (("A1",) if tier == "quick" else ("A1", "A2")):
+                    if tier == "quick" and (work == 2 or tau is not None):
+                        continue
+                    out.append({"k": k, "work": work, "tau": tau, "raise_on": raise_on, "raise_exc": "Cancelled"})
     return out
 
 
@@ -398,8 +409,81 @@ def configs(job: dict) -> Any:
                 yield {"api": api, "seq": seq, **sh, "bad": bad, "place": "free" if free else "costed", "bound": 0 if free else bound, "max_waits": 2}
 
 
+# ---------------------------------------------------------------------------------------------------------
+# datagrams received before serve() is awaited (the listener exists, nobody serves yet): kept and delivered in order
+
+
+def run_burst(cfg: dict) -> dict:
+    import asyncio
+
+    n = cfg["n"]
+    world = World(Ctx(), horizon=60 * n + 2000)
+    seen: dict[str, list[str]] = {"A": [], "B": []}
+    out: dict = {}
+    proto = DatagramProtocol(StringLineSerializer())
+
+    async def main(loop: Any) -> None:
+        backend = RigBackend(world)
+        quiet_logger()
+        (listener,) = await backend.create_udp_listeners(None, 0)
+        usock = backend.udp_listener_socks[0]
+        order = [("A" if (i % 3) else "B") for i in range(n)]
+        cnt = {"A": 0, "B": 0}
+        for a in order:
+            cnt[a] += 1
+            usock.rxd.append((f"{a}{cnt[a]}".encode(), ADDR[a]))
+        for _ in range(4 * n):  # the loop reads them (one per readiness callback) while nobody serves
+            if not usock.rxd:
+                break
+            await asyncio.sleep(0)
+        out["read_before_serve"] = n - len(usock.rxd)
+        ll = AsyncDatagramServer(listener, proto)
+
+        async def handler(c: Any) -> Any:
+            while True:
+                seen[PORT2[c.address[1]]].append((yield))
+
+        task = loop.create_task(ll.serve(handler))
+        for _ in range(40 * n):
+            if len(seen["A"]) + len(seen["B"]) >= n:
+                break
+            await asyncio.sleep(0)
+        task.cancel()
+        await asyncio.wait([task])
+        await ll.aclose()
+        out["want"] = {a: [f"{a}{i}" for i in range(1, cnt[a] + 1)] for a in "AB"}
+
+    status, value, _loop = vloop.run(world, main)
+    out["status"] = status if status == "ok" else f"{status}: {value!r}"[:300]
+    out["seen"] = seen
+    return out
+
+
+def run_burst_job(job: dict) -> JobResult:
+    res = JobResult()
+    for n in ((2, 40, 300) if job["tier"] == "quick" else (2, 40, 300, 1100)):
+        cfg = {"n": n}
+        obs = run_burst(cfg)
+        res.evaluations += 1
+        res.transitions += n
+        bad = None
+        if obs["status"] != "ok":
+            bad = "burst-run-" + obs["status"].split(":")[0]
+        elif obs["seen"] != obs.get("want"):
+            lost = sum(len(obs["want"][a]) - len(obs["seen"][a]) for a in "AB")
+            bad = "datagrams-received-before-serve-lost" if lost > 0 else "datagrams-received-before-serve-reordered-or-duplicated"
+        res.outcome("burst-ok" if bad is None else "VIOLATION:" + bad)
+        res.nontrivial.add(digest(("burst", n, obs.get("read_before_serve"), bad)))
+        if bad and not any(v.key == f"ll/{bad}" for v in res.violations):
+            res.violations.append(Violation(f"ll/{bad}", f"{n} datagrams (2/3 from A, 1/3 from B) read by the loop before serve() was awaited ({obs.get('read_before_serve')} read): handlers saw "
+                                                         f"{len(obs['seen']['A'])} from A (first {obs['seen']['A'][:3]}), {len(obs['seen']['B'])} from B (first {obs['seen']['B'][:3]}); status={obs['status']}",
+                                            {"kind": "burst", "cfg": cfg}))
+    res.samples.append({"kind": "pre-serve burst", "sizes": [2, 40, 300]})
+    return res
+
+
 def jobs(tier: str) -> list[dict]:
-    out = []
+    out = [{"kind": "burst", "tier": tier}]
     for api in ("hl", "ll"):
         nparts = (48 if api == "hl" else 16) if tier == "quick" else (160 if api == "hl" else 60)
         for part in range(nparts):
@@ -408,15 +492,17 @@ def jobs(tier: str) -> list[dict]:
 
 
 def cfg_class(cfg: dict) -> tuple:
-    return (cfg["api"], cfg["seq"], cfg["k"], cfg["work"], cfg["tau"], cfg["raise_on"], cfg["bad"])
+    return (cfg["api"], cfg["seq"], cfg["k"], cfg["work"], cfg["tau"], cfg["raise_on"], cfg.get("raise_exc"), cfg["bad"])
 
 
 def describe(cfg: dict) -> str:
     return (f"{cfg['api']} arrivals={cfg['seq']} malformed_at={cfg['bad']} k={cfg['k'] or 'inf'} work={cfg['work']} timeout={cfg['tau']} "
-            f"raise_on={cfg['raise_on']} place={cfg['place']}")
+            f"raise_on={cfg['raise_on']} ({cfg.get('raise_exc')}) place={cfg['place']}")
 
 
 def run_job(job: dict) -> JobResult:
+    if job.get("kind") == "burst":
+        return run_burst_job(job)
     res = JobResult()
     for cfg in configs(job):
         found: dict[str, tuple[Ctx, dict, str]] = {}
@@ -470,6 +556,10 @@ def run_job(job: dict) -> JobResult:
 def replay(doc: dict) -> tuple[bool, str]:
     rp = doc["replay"]
     cfg = rp["cfg"]
+    if rp.get("kind") == "burst":
+        obs = run_burst(cfg)
+        bad = obs["status"] != "ok" or obs["seen"] != obs.get("want")
+        return bad, f"{cfg['n']} datagrams read before serve(): status={obs['status']} read_before_serve={obs.get('read_before_serve')} seen A={len(obs['seen']['A'])} B={len(obs['seen']['B'])} (first {obs['seen']['A'][:3]} / {obs['seen']['B'][:3]})"
     ctx = Ctx(rp["choices"])
     obs = run_one(ctx, cfg)
     sym, msg, notes = oracle(cfg, obs)
